@@ -320,6 +320,7 @@ def oracle(ctx, heavy=False):
     time_unit_oracle(ctx)
     scale_and_dtype_oracle(ctx)
     round3_oracle(ctx)
+    round4_oracle(ctx)
 
 
 def time_unit_oracle(ctx):
@@ -441,6 +442,58 @@ def round3_oracle(ctx):
         ctx.count(("zero-rtol", meth))
         if not err <= 1e-3:
             ctx.fail("oracle", "ivp:%s:zero-rtol-absolute-accuracy" % meth, {"ode": "rotation, |y| = 1e3", "atol": 1e-6, "rtol": 0.0}, err, "<= 1e-3")
+
+
+def round4_oracle(ctx):
+    """adaptive methods: (a) dense output grids on problems that get harder along the way (blow-up, narrow pulse): a step clipped to
+    a requested time and then REJECTED must not be recorded as having reached that time (round-4 seed C07/10); (b) right-hand
+    sides defined on part of the state space only: a trial step that leaves the domain gives a NaN error estimate and must be
+    rejected and retried, not accepted (C07/11); (c) the order of the pairs: with tolerances so loose that each interval is ONE
+    step, rk45 integrates t^k exactly for k <= 4 and rk23 for k <= 2 (C07/12: rk45 ran the 3(2) tableau)"""
+    from xitorch.integrate import solve_ivp
+    tsb = torch.linspace(0.0, 0.95, 40, dtype=DT)
+    tsp = torch.linspace(0.0, 4.0, 60, dtype=DT)
+    cases = [("blow-up y' = y^2", lambda t, y: y * y, tsb, torch.tensor([1.0], dtype=DT), 1.0 / (1.0 - tsb).unsqueeze(-1)),
+             ("narrow pulse", lambda t, y: -2.0 * 50.0 * (t - 2.0) * torch.exp(-50.0 * (t - 2.0) ** 2) + 0.0 * y, tsp, torch.exp(torch.tensor([-200.0], dtype=DT)),
+              torch.exp(-50.0 * (tsp - 2.0) ** 2).unsqueeze(-1))]
+    for meth in ("rk45", "rk23"):
+        for name, fcn, ts, y0, exact in cases:
+            for atol, rtol in ((1e-10, 1e-7),):
+                try:
+                    yt = solve_ivp(guarded(fcn, 400000), ts, y0, method=meth, atol=atol, rtol=rtol)
+                except Exception as e:
+                    ctx.fail("oracle", "ivp:%s:dense-grid:exception" % meth, {"family": name}, repr(e)[:200], "a trajectory")
+                    continue
+                ctx.count(("dense-grid-hardening", meth, name))
+                rel = float(((yt - exact).abs() / (atol / rtol + exact.abs())).max())
+                # (global error over 40-60 requested times: a generous 1e4 x rtol; a recorded value at the wrong time is off by 1e-2)
+                if not rel <= 1e4 * rtol:
+                    ctx.fail("oracle", "ivp:%s:accuracy-on-dense-grid" % meth, {"family": name, "npoints": len(ts), "atol": atol, "rtol": rtol}, rel,
+                             "relative error <= %g at every requested time" % (1e4 * rtol))
+    # (b) partial domains
+    for meth in ("rk45", "rk23"):
+        for name, fcn, T1, y0, exact in (("y' = sqrt(1 - y^2)", lambda t, y: torch.sqrt(1.0 - y * y), 1.5, 0.0, lambda t: math.sin(t)),
+                                         ("y' = -y log y", lambda t, y: -y * torch.log(y), 3.0, 0.05, lambda t: math.exp(math.log(0.05) * math.exp(-t)))):
+            ts = torch.tensor([0.0, T1], dtype=DT)
+            try:
+                yt = solve_ivp(guarded(fcn, 400000), ts, torch.tensor([y0], dtype=DT), method=meth, atol=1e-10, rtol=1e-8)
+            except Exception as e:
+                ctx.fail("oracle", "ivp:%s:partial-domain:exception" % meth, {"family": name}, repr(e)[:200], "a trajectory")
+                continue
+            ctx.count(("partial-domain", meth, name))
+            err = abs(float(yt[-1, 0]) - exact(T1))
+            if not err <= 1e-5:                       # NaN compares false
+                ctx.fail("oracle", "ivp:%s:right-hand-side-with-partial-domain" % meth, {"family": name, "ts": ts.tolist()},
+                         {"y_end": float(yt[-1, 0]), "exact": exact(T1)}, "the solution within 1e-5 (a trial step that leaves the domain is rejected)")
+    # (c) order of the embedded pairs, one step per interval
+    ts1 = torch.tensor([0.0, 1.0], dtype=DT)
+    for meth, exact_upto in (("rk45", 4), ("rk23", 2)):
+        for kdeg in range(0, exact_upto + 1):
+            yt = solve_ivp(lambda t, y: (kdeg + 1.0) * t ** kdeg + 0.0 * y, ts1, torch.zeros(1, dtype=DT), method=meth, atol=1e6, rtol=1e6)
+            ctx.count(("pair-order", meth, kdeg))
+            if not abs(float(yt[-1, 0]) - 1.0) <= 1e-12:
+                ctx.fail("oracle", "ivp:%s:pair-order" % meth, {"rhs": "(k+1) t^k", "k": kdeg, "tolerances": "so loose that [0, 1] is one step"},
+                         float(yt[-1, 0]), "exactly 1 (a pair of order %d integrates t^k exactly for k <= %d)" % (exact_upto + 1, exact_upto))
 
 
 def search(ctx):
